@@ -671,7 +671,10 @@ func init() {
 			t.FollowField = func(fv *types.Var) bool { return false }
 			t.StopCall = func(site ssa.CallInstruction, arg ssa.Value) bool {
 				n := calleeName(site.Common())
-				return n == "helpers.DeepCloneNode" || n == "builtin.len"
+				if callee := site.Common().StaticCallee(); callee != nil && isDeepCloner(p, callee) {
+					return true
+				}
+				return n == "builtin.len"
 			}
 			cone := p.evaluatorCone()
 			t.Sink = func(u ssa.Instruction, v ssa.Value) string {
@@ -923,4 +926,201 @@ func loopDirection(fn *ssa.Function) int {
 		}
 	})
 	return dir
+}
+
+func init() {
+	register(&Rule{
+		ID: "C04.R7", Props: []string{"C04", "C01"}, Min: 1,
+		Doc: "one private instance per item: inside the v-for callback the element handed to the evaluator is a deep clone (DeepCloneNode) made in that very iteration — not a clone hoisted out of the loop (evaluation mutates <template>/v-html nodes and returns them, so iterations would share one node) and not a shallow clone sharing the original's children (evaluating an include rewrites its attributes in place, so data of iteration 1 becomes template text of iteration 2)",
+		Run: func(p *Prog, c *Ctx) {
+			evalFor := p.MustFn("(*vuego.Vue).evalFor")
+			var cb *ssa.Function
+			for _, a := range evalFor.AnonFuncs {
+				if len(a.Params) == 2 {
+					cb = a
+				}
+			}
+			if cb == nil {
+				undecided("evalFor has no two-parameter callback")
+			}
+			n := 0
+			for _, site := range callsIn(cb) {
+				if calleeName(site.Common()) != "(*vuego.Vue).evaluate" {
+					continue
+				}
+				n++
+				// elements of the slice literal passed as nodes
+				var elems []ssa.Value
+				for _, o := range p.origins(site.Common().Args[2], OriginOpts{}) {
+					if al, ok := o.(*ssa.Alloc); ok {
+						if refs := al.Referrers(); refs != nil {
+							for _, r := range *refs {
+								if ia, ok := r.(*ssa.IndexAddr); ok {
+									if irefs := ia.Referrers(); irefs != nil {
+										for _, ir := range *irefs {
+											if st, ok := ir.(*ssa.Store); ok {
+												elems = append(elems, st.Val)
+											}
+										}
+									}
+								}
+							}
+						}
+					}
+				}
+				okAll := len(elems) > 0
+				why := "the evaluated node list is not a literal built in the callback"
+				for _, e := range elems {
+					for _, o := range p.origins(e, OriginOpts{}) {
+						cl, ok := o.(*ssa.Call)
+						switch {
+						case !ok:
+							okAll, why = false, "the looped element originates from "+describeValue(o)
+						case cl.Call.StaticCallee() == nil || !isDeepCloner(p, cl.Call.StaticCallee()):
+							okAll, why = false, "the looped element is produced by "+calleeName(&cl.Call)+", which does not copy the children"
+						case cl.Parent() != cb:
+							okAll, why = false, "the deep clone is made once outside the per-item callback (at "+p.instrPos(cl)+") and reused for every item"
+						}
+					}
+				}
+				c.check(okAll, fmt.Sprintf("evalFor callback: evaluated instance#%d", n), p.instrPos(site), "DeepCloneNode(node) made in this iteration", why+": loop instances share node objects")
+			}
+			c.check(n > 0, "evalFor callback: evaluates an instance", p.pos(cb.Pos()), "evaluate is called per item", "the v-for callback no longer evaluates an instance per item")
+		},
+	})
+
+	register(&Rule{
+		ID: "C06.R5", Props: []string{"C06"}, Min: 2,
+		Doc: "slot partitioning: a child of the include tag is registered as a slot template (SlotContent with a TemplateNode) only when it is a <template> carrying v-slot / # (hasVSlot); every other child — including plain <template v-if/v-for> — goes to the unnamed slot as ordinary content",
+		Run: func(p *Prog, c *Ctx) {
+			fn := p.MustFn("vuego.extractSlotContent")
+			n := 0
+			eachInstr(fn, func(in ssa.Instruction) {
+				st, ok := in.(*ssa.Store)
+				if !ok {
+					return
+				}
+				fv := fieldVar(st.Addr)
+				if fv == nil || fv.Name() != "TemplateNode" || isNilConst(st.Val) {
+					return
+				}
+				n++
+				byVSlot, byTag := false, false
+				for _, ec := range allGuards(st.Block()) {
+					if cl, ok := ec.cond.(*ssa.Call); ok && calleeName(&cl.Call) == "vuego.hasVSlot" && ec.want {
+						byVSlot = true
+					}
+					if b, ok := ec.cond.(*ssa.BinOp); ok && b.Op == token.EQL && ec.want {
+						if s, ok := constString(b.Y); ok && s == "template" {
+							byTag = true
+						}
+					}
+				}
+				c.check(byVSlot && byTag, fmt.Sprintf("extractSlotContent: slot template registered#%d", n), p.instrPos(st), "only for <template> with v-slot/#", "a child is registered as a slot template without requiring `<template>` ∧ hasVSlot: a plain <template v-if/v-for> child loses its own directive and replaces or hides the default slot content")
+			})
+			c.check(n > 0, "extractSlotContent: registers slot templates", p.pos(fn.Pos()), fmt.Sprintf("%d store(s)", n), "named/scoped slot templates are no longer registered")
+			// default content: everything else is deep-cloned into the default slot
+			clones := 0
+			for _, site := range callsIn(fn) {
+				if calleeName(site.Common()) == "helpers.DeepCloneNode" || calleeName(site.Common()) == "helpers.CloneNode" {
+					clones++
+				}
+			}
+			c.check(clones >= 2, "extractSlotContent: content is cloned", p.pos(fn.Pos()), fmt.Sprintf("%d clone calls", clones), "supplied content is no longer cloned out of the includer's DOM")
+		},
+	})
+
+	register(&Rule{
+		ID: "C06.R6", Props: []string{"C06"}, Min: 2,
+		Doc: "slot props are per use: the props a <slot> binds are collected in a map made in that evaluation of the slot, and what is bound into the pushed scope (under the declared name, or key by key) originates from that fresh map — never from storage that outlives the use (the shared SlotContent), which would carry one iteration's props into the next",
+		Run: func(p *Prog, c *Ctx) {
+			fn := p.MustFn("(*vuego.Vue).evalSlot")
+			fresh := func(v ssa.Value) (bool, string) {
+				for _, o := range p.origins(v, OriginOpts{}) {
+					mk, ok := o.(*ssa.MakeMap)
+					if !ok {
+						return false, describeValue(o)
+					}
+					if mk.Parent() != fn {
+						return false, "a map made elsewhere"
+					}
+				}
+				return true, ""
+			}
+			n := 0
+			for _, site := range callsIn(fn) {
+				if !isStackCall(site.Common(), "Set") {
+					continue
+				}
+				val := unwrapIface(site.Common().Args[2])
+				if _, isMap := val.Type().Underlying().(*types.Map); isMap {
+					n++
+					ok, from := fresh(val)
+					c.check(ok, fmt.Sprintf("evalSlot: scoped props bound#%d", n), p.instrPos(site), "the map collected in this evaluation", "the props bound under the scoped name come from "+from+": props of an earlier use of the slot (another loop iteration) remain visible")
+				}
+			}
+			eachInstr(fn, func(in ssa.Instruction) {
+				rg, ok := in.(*ssa.Range)
+				if !ok {
+					return
+				}
+				if _, isMap := rg.X.Type().Underlying().(*types.Map); !isMap {
+					return
+				}
+				// only the loop that feeds Stack.Set
+				feeds := false
+				for _, site := range callsIn(fn) {
+					if isStackCall(site.Common(), "Set") {
+						for _, o := range p.origins(site.Common().Args[2], OriginOpts{}) {
+							if o == rg.X {
+								feeds = true
+							}
+						}
+					}
+				}
+				if !feeds {
+					return
+				}
+				n++
+				ok2, from := fresh(rg.X)
+				c.check(ok2, fmt.Sprintf("evalSlot: destructured props bound#%d", n), p.instrPos(rg), "the map collected in this evaluation", "the props bound key by key come from "+from)
+			})
+			c.check(n > 0, "evalSlot: binds slot props", p.pos(fn.Pos()), fmt.Sprintf("%d binding site(s)", n), "slot props are no longer bound into the slot content's scope")
+		},
+	})
+}
+
+// isDeepCloner recognises a deep-copy function structurally: func(*html.Node) *html.Node that calls
+// itself (on the children) and whose result is a node obtained fresh in the call (allocator / pool getter),
+// never the argument.
+func isDeepCloner(p *Prog, fn *ssa.Function) bool {
+	if !inModule(fn) || len(fn.Params) != 1 || fn.Signature.Results().Len() != 1 {
+		return false
+	}
+	if !isNamed(fn.Params[0].Type(), "golang.org/x/net/html", "Node") || !isNamed(fn.Signature.Results().At(0).Type(), "golang.org/x/net/html", "Node") {
+		return false
+	}
+	self := false
+	for _, site := range callsIn(fn) {
+		if site.Common().StaticCallee() == fn {
+			self = true
+		}
+	}
+	if !self {
+		return false
+	}
+	for _, r := range returnsOf(fn) {
+		for _, o := range p.origins(r.Results[0], OriginOpts{}) {
+			switch x := o.(type) {
+			case *ssa.Alloc:
+			case *ssa.Call:
+				if x.Call.StaticCallee() == fn {
+					return false
+				}
+			default:
+				return false
+			}
+		}
+	}
+	return true
 }
